@@ -29,12 +29,12 @@ CaseList == <<
    <<"write", "bed4", "bed4", "cse">>,   \* 2
    <<"write", "bed4", "bed4", "g">>,   \* 3
    <<"write", "bed", "bed", "cse">>,   \* 4
-   <<"write", "bed", "bed", "g">>,   \* 5
+   <<"write", "bed", "bed", "g1">>,   \* 5
    <<"write", "bed", "bed", "gf">>,   \* 6
    <<"write", "interval", "interval", "cse">>,   \* 7
-   <<"write", "interval", "interval", "g">>,   \* 8
+   <<"write", "interval", "interval", "g1">>,   \* 8
    <<"write", "text", "text", "cse">>,   \* 9
-   <<"write", "text", "text", "g">>,   \* 10
+   <<"write", "text", "text", "g1">>,   \* 10
    <<"write", "tab", "tab", "cse">>,   \* 11
    <<"write", "tab", "tab", "gf">>,   \* 12
    <<"write", "tab", "tab", "gfp">>,   \* 13
@@ -43,17 +43,17 @@ CaseList == <<
    <<"rt", "bed3", "bed4", "cse">>,   \* 16
    <<"rt", "bed3", "bed", "cse">>,   \* 17
    <<"rt", "bed4", "bed3", "cse">>,   \* 18
-   <<"rt", "bed4", "bed3", "g">>,   \* 19
+   <<"rt", "bed4", "bed3", "g1">>,   \* 19
    <<"rt", "bed4", "bed4", "cse">>,   \* 20
    <<"rt", "bed4", "bed4", "g">>,   \* 21
    <<"rt", "bed4", "bed", "cse">>,   \* 22
-   <<"rt", "bed4", "bed", "g">>,   \* 23
+   <<"rt", "bed4", "bed", "g1">>,   \* 23
    <<"rt", "bed", "bed3", "cse">>,   \* 24
-   <<"rt", "bed", "bed3", "g">>,   \* 25
+   <<"rt", "bed", "bed3", "g1">>,   \* 25
    <<"rt", "bed", "bed4", "cse">>,   \* 26
-   <<"rt", "bed", "bed4", "g">>,   \* 27
+   <<"rt", "bed", "bed4", "g1">>,   \* 27
    <<"rt", "bed", "bed", "cse">>,   \* 28
-   <<"rt", "bed", "bed", "g">>,   \* 29
+   <<"rt", "bed", "bed", "g1">>,   \* 29
    <<"rt", "interval", "interval", "cse">>,   \* 30
    <<"rt", "interval", "interval", "g">>,   \* 31
    <<"rt", "text", "text", "cse">>,   \* 32
@@ -66,12 +66,12 @@ CaseList == <<
    <<"read", "bed3", "bed4", "cse">>,   \* 39
    <<"read", "bed3", "bed", "cse">>,   \* 40
    <<"read", "bed4", "bed4", "g">>,   \* 41
-   <<"read", "bed4", "bed3", "g">>,   \* 42
-   <<"read", "bed4", "bed", "g">>,   \* 43
+   <<"read", "bed4", "bed3", "g1">>,   \* 42
+   <<"read", "bed4", "bed", "g1">>,   \* 43
    <<"read", "bed6", "bed", "g">>,   \* 44
-   <<"read", "bed6", "bed4", "g">>,   \* 45
+   <<"read", "bed6", "bed4", "g1">>,   \* 45
    <<"read", "interval", "interval", "g">>,   \* 46
-   <<"read", "interval_hdr", "interval", "g">>,   \* 47
+   <<"read", "interval_hdr", "interval", "g1">>,   \* 47
    <<"read", "text", "text", "cse">>,   \* 48
    <<"read", "text_gene", "text", "g">>,   \* 49
    <<"read", "tab", "tab", "gf">>,   \* 50
@@ -81,7 +81,7 @@ CaseList == <<
    <<"read", "seg", "seg", "gfp">>,   \* 54
    <<"read", "picardhs", "picardhs", "hs">>,   \* 55
    <<"read", "gff", "gff", "g">>,   \* 56
-   <<"read", "gtf", "gff", "g">>,   \* 57
+   <<"read", "gtf", "gff", "g1">>,   \* 57
    <<"read", "vcf", "vcf", "cse">>,   \* 58
    <<"read", "vcf_sv", "vcf", "cse">>,   \* 59
    <<"read", "vcf", "vcf-simple", "cse">>,   \* 60
@@ -90,19 +90,19 @@ CaseList == <<
    <<"read", "vcf_sv", "vcf-sites", "cse">>,   \* 63
    <<"auto", "bed3", "bed", "cse">>,   \* 64
    <<"auto", "bed4", "bed", "g">>,   \* 65
-   <<"auto", "bed6", "bed", "g">>,   \* 66
-   <<"auto", "interval", "interval", "g">>,   \* 67
-   <<"auto", "interval_hdr", "interval", "g">>,   \* 68
+   <<"auto", "bed6", "bed", "g1">>,   \* 66
+   <<"auto", "interval", "interval", "g1">>,   \* 67
+   <<"auto", "interval_hdr", "interval", "g1">>,   \* 68
    <<"auto", "text", "text", "cse">>,   \* 69
-   <<"auto", "text_gene", "text", "g">>,   \* 70
-   <<"auto", "gff", "gff", "g">>,   \* 71
-   <<"auto", "gtf", "gff", "g">>,   \* 72
+   <<"auto", "text_gene", "text", "g1">>,   \* 70
+   <<"auto", "gff", "gff", "g1">>,   \* 71
+   <<"auto", "gtf", "gff", "g1">>,   \* 72
    <<"auto", "tab", "tab", "gf">>,   \* 73
    <<"auto", "tab", "tab", "cse">>,   \* 74
    <<"auto", "vcf", "vcf", "cse">>,   \* 75
    <<"segrt", "seg", "cna", "gf2">>,   \* 76
    <<"segrt", "seg", "cna", "gfp">>,   \* 77
-   <<"write", "tab", "tab", "g">>,   \* 78
+   <<"write", "tab", "tab", "g1">>,   \* 78
    <<"rt", "tab", "tab", "g">>,   \* 79
    <<"read", "tab", "tab", "g">>   \* 80
    >>
@@ -118,7 +118,8 @@ FI == 1..Len(Floats)
 (* shapes: which columns the abstract table has *)
 RowSet(shape) ==
     CASE shape = "cse" -> {<<n, p[1], p[2]>> : n \in NI, p \in Coords}                       \* chromosome start end
-      [] shape = "g"   -> {<<n, p[1], p[2], g>> : n \in NI, p \in Coords, g \in GI}           \* + gene
+      [] shape = "g"   -> {<<n, p[1], p[2], g>> : n \in NI, p \in Coords, g \in GI}           \* + gene (every label)
+      [] shape = "g1"  -> {<<n, p[1], p[2], 1>> : n \in NI, p \in Coords}                    \* + gene (first label only)
       [] shape = "gf"  -> {<<n, p[1], p[2], 1, f>> : n \in NI, p \in Coords, f \in FI}        \* + gene, log2
       [] shape = "gfp" -> {<<n, p[1], p[2], 1, f>> : n \in NI, p \in Coords, f \in FI}        \* + gene, log2, probes
       [] shape = "gf2" -> {<<n, p[1], p[2], 1, 1, m>> : n \in NI, p \in Coords, m \in 1..2}   \* two samples
@@ -132,7 +133,7 @@ Base(r) == <<SCell(Names[r[1]]), ICell(r[2]), ICell(r[3])>>
 MkSrcs(shape, rows) ==
     LET mk(cols, f(_), rs) == Tbl(cols, [k \in 1..Len(rs) |-> f(rs[k])]) IN
     CASE shape = "cse" -> << <<t_S1, mk(CSE, Base, rows)>> >>
-      [] shape = "g"   -> << <<t_S1, mk(CSE \o <<t_gene>>, LAMBDA r : Base(r) \o <<SCell(Genes[r[4]])>>, rows)>> >>
+      [] shape \in {"g", "g1"} -> << <<t_S1, mk(CSE \o <<t_gene>>, LAMBDA r : Base(r) \o <<SCell(Genes[r[4]])>>, rows)>> >>
       [] shape = "gf"  -> << <<t_S1, mk(CSE \o <<t_gene, t_log2>>,
                                        LAMBDA r : Base(r) \o <<SCell(Genes[r[4]]), FloatCell(r[5])>>, rows)>> >>
       [] shape = "gfp" -> << <<t_S1, mk(CSE \o <<t_gene, t_log2, t_probes>>,
